@@ -709,3 +709,10 @@ pub fn hidden_cells(e: &Ex) -> BTreeSet<String> {
     let a = Analysis::of(e);
     lambda_free_writes(e).intersection(&a.declared_inner).cloned().collect()
 }
+
+/// the plain names a pattern mentions as targets
+pub fn lv_names(l: &Lv) -> Vec<String> {
+    let mut out = BTreeSet::new();
+    lv_targets(l, &mut out);
+    out.into_iter().collect()
+}
